@@ -128,7 +128,7 @@ def check_root_variant(pe, acc, C, c, T, pattern, kind, var):
     sub = {'kind': 'one', 'T': T, 'pattern': list(pattern), 'data': kind, 'variant': name}
     func = np.sinh if var == 'sinh' else np.cosh
     h = T / 2
-    exp = {}     # t -> ('root', ratio) | ('copy',) | ('skip',)
+    exp = {}     # t -> None | ('root', ratio) | ('marginal', ratio) | ('copy', predecessor)
     prev = None
     for t in range(T - 1):
         if c[t] is None or c[t + 1] is None or c[t + 1].value == 0:
@@ -137,16 +137,16 @@ def check_root_variant(pe, acc, C, c, T, pattern, kind, var):
             e = None if (prev is None or (prev[0] == 'copy' and prev[1] is None)) else ('copy', prev)
         elif c[t].value / c[t + 1].value < 0:
             e = None
-        elif var != 'sinh' and abs((t - h) + (t + 1 - h)) < 1e-12:
-            e = ('skip',)      # ratio identically 1: no information on the mass
         else:
-            r = c[t].value / c[t + 1].value
-            # a real solution exists iff the ratio lies in the range of the function ratio
-            lim = math.exp(1.0) if (t + 1 - h) <= 0 else math.exp(-1.0)    # limit m->inf of the ratio per unit mass
-            e = ('root', c[t] / c[t + 1])
+            # a real solution exists iff the ratio lies in the range of the function ratio (statement: otherwise undefined)
+            sol = _solvable(var, t, T, c[t].value / c[t + 1].value)
+            e = ('nosol', c[t] / c[t + 1]) if sol == 'no' else (('root' if sol == 'yes' else 'marginal'), c[t] / c[t + 1])
         exp[t] = e
         prev = e
-    D = [t for t, e in exp.items() if e is not None and e[0] != 'skip' and not (e[0] == 'copy' and e[1] is None)]
+
+    def certain(e):
+        return e is not None and (e[0] == 'root' or (e[0] == 'copy' and certain(e[1])))
+    D = [t for t, e in exp.items() if certain(e)]
     try:
         with warnings.catch_warnings():
             warnings.simplefilter('ignore')
@@ -164,13 +164,10 @@ def check_root_variant(pe, acc, C, c, T, pattern, kind, var):
         acc.fail('%s:defined-set' % name, sub, 'last timeslice defined')
         return
     last = None
+    nosol = []
     for t in range(T - 1):
         e = exp[t]
         r = R.content[t]
-        if e is not None and e[0] == 'skip':
-            last = r
-            continue
-        want_defined = e is not None and not (e[0] == 'copy' and (e[1] is None))
         if e is not None and e[0] == 'copy':
             # documented: the two central slices repeat their predecessor
             pred = R.content[t - 1] if t > 0 else None
@@ -178,13 +175,18 @@ def check_root_variant(pe, acc, C, c, T, pattern, kind, var):
                 acc.fail('%s:central-slices' % name, sub, '%s pattern %s: central timeslice %d does not repeat its predecessor' % (name, pattern, t))
                 return
             continue
-        if want_defined != (r is not None):
-            # a ratio outside the range of the function has no real solution: the root finder may return anything there
-            if want_defined is False or not _solvable(var, t, T, e[1].value):
-                continue
-            acc.fail('%s:defined-set' % name, sub, '%s on pattern %s (%s data): timeslice %d defined=%s, expected %s' % (name, pattern, kind, t, r is not None, want_defined))
+        if e is not None and e[0] == 'marginal' and r is None:
+            continue
+        if e is not None and e[0] == 'nosol':
+            if r is not None:
+                nosol.append((t, e[1].value, r[0].value))
+            continue
+        if (e is not None) != (r is not None):
+            acc.fail('%s:defined-set' % name, sub, '%s on pattern %s (%s data): timeslice %d defined=%s, expected %s%s' % (
+                name, pattern, kind, t, r is not None, e is not None,
+                '' if e is not None or c[t] is None or c[t + 1] is None else ' (C(t)/C(t+1) = %.4g: no real solution)' % (c[t].value / c[t + 1].value)))
             return
-        if r is None or not _solvable(var, t, T, e[1].value):
+        if r is None:
             continue
         m = r[0]
         if not (m.value >= 0):
@@ -195,22 +197,37 @@ def check_root_variant(pe, acc, C, c, T, pattern, kind, var):
         if bad:
             acc.fail('%s:substitution' % name, sub, '%s pattern %s (%s data) t=%d: ratio reconstructed from the returned mass differs from C(t)/C(t+1): %s' % (name, pattern, kind, t, bad))
             return
+    if nosol:
+        # statement: undefined where the formula has no real solution.  Reported after everything else about this call was
+        # found in order, under its own signature (one per variant).
+        acc.fail('%s:no-real-solution-defined' % name, sub, '%s on pattern %s (%s data): timeslice(s) %s are defined although C(t)/C(t+1) = %s lies outside the range of the function ratio (no real solution); returned masses %s' % (
+            name, pattern, kind, [x[0] for x in nosol], ['%.4g' % x[1] for x in nosol], ['%.4g' % x[2] for x in nosol]))
+        return
     acc.ok((T, pattern, kind, name), (0 in pattern) or kind not in ('cosh', 'exp'), 'm_eff-root')
 
 
 def _solvable(var, t, T, ratio):
-    """Does f(m(t-T/2))/f(m(t+1-T/2)) = ratio have a solution m>0 well inside the range?"""
+    """'yes': f(m(t-T/2))/f(m(t+1-T/2)) = ratio has a solution 0.02 < m < 3 well inside the range (must be found);
+    'no': the ratio lies outside the range the function ratio attains for any real m (no real solution: must be
+    undefined); 'marginal': in between (solution at very small / very large mass: either outcome accepted)."""
     h = T / 2
     f = math.sinh if var == 'sinh' else math.cosh
     a, b = t - h, t + 1 - h
+    # the function ratio is monotonic in m > 0, from its m -> 0 limit to its m -> infinity limit
+    if var == 'sinh' and a * b <= 0:
+        lo = hi = (a / b) if b != 0 else float('inf')          # odd T, central pair: identically -1
+    else:
+        at0 = (a / b) if var == 'sinh' else 1.0
+        atinf = float('inf') if abs(a) > abs(b) else (0.0 if abs(a) < abs(b) else 1.0)
+        lo, hi = min(at0, atinf), max(at0, atinf)
+    if not (lo * 0.98 < ratio < hi * 1.02) or lo == hi:
+        return 'no'
     try:
-        lo = (a / b) if var == 'sinh' else 1.0          # m -> 0
-        hi = math.exp(abs(a) - abs(b)) * (1 if (var != 'sinh' or a * b > 0) else -1)   # per unit m, m -> large
-        g = lambda m: f(m * a) / f(m * b)
-        vals = [g(m) for m in (0.02, 3.0)]
-        return min(vals) * 1.02 < ratio < max(vals) * 0.98 if min(vals) > 0 else min(vals) * 0.98 < ratio < max(vals) * 1.02
+        vals = [f(m * a) / f(m * b) for m in (0.02, 3.0)]
     except (ZeroDivisionError, OverflowError):
-        return False
+        return 'marginal'
+    inside = min(vals) * 1.02 < ratio < max(vals) * 0.98 if min(vals) > 0 else min(vals) * 0.98 < ratio < max(vals) * 1.02
+    return 'yes' if inside else 'marginal'
 
 
 def build(tier, seed):
@@ -300,13 +317,33 @@ def run_plateau(pe, acc, case):
                         acc.fail('plateau:%s' % method, sub, 'plateau(%s) over [%d,%d], pattern %s: %s' % (method, a, b, pattern, bad))
                     else:
                         acc.ok(('pl', T, pattern, a, b, method), True, 'plateau-' + method)
-        # prange default
-        if all(pattern):
-            C2 = pe.Corr([x[0] for x in C.content], prange=[1, T - 2])
-            C2.gamma_method()
-            r1, r2 = C2.plateau(method='avg'), C2.plateau([1, T - 2], method='avg')
-            if same_entry(r1, r2, pe, 1e-14):
-                acc.fail('plateau:prange-default', dict(case, pattern=list(pattern)), 'plateau() does not use the stored prange')
-            else:
-                acc.ok(('plpr', T), True, 'plateau-prange')
+        # stored plateau range: used when no range is passed, overridden by an explicit one (constructor and set_prange)
+        if all(pattern) and T >= 4:
+            for route in ('constructor', 'set_prange'):
+                if route == 'constructor':
+                    C2 = pe.Corr([x[0] for x in C.content], prange=[1, T - 2])
+                else:
+                    C2 = pe.Corr([x[0] for x in C.content])
+                    C2.set_prange([1, T - 2])
+                C2.gamma_method()
+                for method in ('avg', 'fit'):
+                    for given in (None, [0, 1], [T - 2, T - 1], [1, T - 2]):
+                        a, b = given if given is not None else (1, T - 2)
+                        ts = list(range(a, b + 1))
+                        if method == 'avg':
+                            e, tol = sum(c[t] for t in ts) / len(ts), 1e-12
+                        else:
+                            w = np.array([1 / c[t].dvalue ** 2 for t in ts])
+                            e, tol = sum((wi / w.sum()) * c[t] for wi, t in zip(w, ts)), 1e-7
+                        sub = dict(case, pattern=list(pattern), route=route, method=method, given=given)
+                        try:
+                            r = C2.plateau(method=method) if given is None else C2.plateau(given, method=method)
+                            bad = same_entry(r, e, pe, tol)
+                        except Exception as ex:
+                            bad = 'raised %s: %s' % (type(ex).__name__, ex)
+                        if bad:
+                            acc.fail('plateau:prange-%s' % ('default' if given is None else 'explicit-range-ignored'), sub,
+                                     'Corr with prange [1,%d] (%s): plateau(%s, method=%s) is not the %s over [%d,%d]: %s' % (T - 2, route, given, method, method, a, b, bad))
+                        else:
+                            acc.ok(('plpr', T, route, method, repr(given)), True, 'plateau-prange')
     acc.sample({'kind': 'plateau', 'T': T, 'ranges': 'every [a,b]', 'methods': ['fit', 'avg']})
